@@ -240,7 +240,9 @@ ADDED = {
            'keys around PyYAML\'s 1024-character implicit-key limit (open known finding).',
     'C08': ' Also: 30 models whose hooks read attribute values (require_attribute_value, get_value, has_attribute_type, '
            'remove_attributes_with_default_values) or restructure them behind a permissive recogniser, each on every nasty '
-           'scalar and shape.',
+           'scalar and shape; helpers without a documented mapping precondition on scalar and sequence nodes; parsed-class '
+           'hooks; long number spellings (base-60 overflow, beyond the 4300-digit limit); a lexical unit with every '
+           'boundary escape sequence and %YAML/%TAG directive that no rendered document contains.',
     'C09': ' Also: character categories (\\d \\s \\w) are translated exactly, so non-ASCII digits are covered; a sign on '
            '.nan is not accepted.',
     'C10': ' Also: same-named unregistered mix-ins, the deprecated Dumper route with classes registered in two steps, the '
@@ -255,7 +257,8 @@ ADDED = {
            'permutation.',
     'C14': ' Also: initial nodes composed from text (marks, a value shared by two keys, kind/tag mismatches), overrides of '
            'non-None defaults incl. by None, a defaulted _yatiml_extra before the defaulted parameters, empty collections '
-           'against defaults of the same and the other kind.',
+           'against defaults of the same and the other kind, ints beyond the str() digit limit through set_value and '
+           'set_attribute.',
     'C15': ' Also: the full form (item already has its key attribute) is inside the domain of map_attribute_to_index.',
     'C16': ' Also: near-miss keys (dashed / underscored / case), nodes whose kind and core tag disagree.',
     'C17': ' Also: near-miss enum members, numeric and duplicated added keys, Union-with-collection and Union-of-classes '
